@@ -83,19 +83,23 @@ def i123(chk, repo, g):
             if cal.key == f"{ARRAY}:read_chunk":
                 reads.append(c)
     direct = [e for e in effs if e.kind == "fs_read"]
-    chk.require(len(reads) == 1 and not direct, "C11-I2", where, "exactly one read site: read_chunk(...)",
-                f"{len(reads)} read_chunk sites and {len(direct)} direct reads in __getitem__", key="getitem:read-sites")
+    if len(reads) != 1 or direct:
+        # reads moved into a helper / generator, or written inline: what is requested is decided by the request trace (C11-I9)
+        raise AnalysisError(f"{where}: {len(reads)} read_chunk call sites and {len(direct)} direct reads in __getitem__ itself: not the recognised form; not decided by the form rule")
+    chk.ok("C11-I2", where, "exactly one read site: read_chunk(...)")
     if reads:
         rc = reads[0]
         from ..dataflow import enclosing_iterations
         its = enclosing_iterations(rc, gi.node)
         depth = len(its)
         star = [k for k in rc.keywords if k.arg is None]
+        if depth == 0:
+            raise AnalysisError(f"{where}: read_chunk is not inside a loop or comprehension; not decided by the form rule")
         chk.require(depth == 1, "C11-I2", where, "read_chunk is called at loop depth 1 (once per task)",
                     f"read_chunk is called at loop depth {depth}: one request per row instead of one per chunk", key="getitem:read-depth")
         # the loop iterates over tasks; tasks 1:1 with groupby keys
         if not its or its[0][0] is None:
-            chk.fail("C11-I2", where, "read_chunk is not inside a loop over tasks", key="getitem:read-loop")
+            raise AnalysisError(f"{where}: the iteration around read_chunk is not recognised; not decided by the form rule")
         else:
             ok, why = one_to_one_with_groupby(repo, gi, its[0][0])
             chk.require(ok, "C11-I2", where, f"the loop iterates over tasks that are 1:1 with the groupby-by-chunk keys ({why})",
